@@ -1441,6 +1441,7 @@ func runC04(c *Checker) {
 	rulePublishOrder(c, "PUBLISH")
 	ruleConnDataSetters(c, "PUBLISH", true)
 	ruleVersionConfig(c, "HSK-VER")
+	rulePayloadSource(c, "PUBLISH")
 	pub("SetAuthData", fRP, func(f Fact) bool { return f.Val && isLoadOfField(f.Cond, fInit) },
 		"SetAuthData(receivedPayload) iff initiator, after split, error checked")
 	c.floor("PUBLISH", 3)
@@ -2110,4 +2111,48 @@ func ruleVersionConfig(c *Checker, rule string) {
 		c.decide(okOpt, rule, "With"+pr[0]+"|sets "+pr[1], token.NoPos, "the option closure stores its argument into "+pr[1], "With"+pr[0]+" does not store its argument into "+pr[1])
 	}
 	c.decide(n >= 4, rule, "machine version range sites", token.NoPos, fmt.Sprintf("%d stores", n), fmt.Sprintf("only %d stores of the machine's version range found in NoiseGrpcConn methods (client and server handshake: 4)", n))
+}
+
+// rulePayloadSource: what writeMsgPattern encrypts as the act's payload is nothing, the configured
+// payloadToSend, or a buffer (array) created in this very call - never storage that outlives the
+// call (a pooled or cached buffer that is only partly overwritten sends the previous handshake's
+// auth payload to this handshake's peer).
+func rulePayloadSource(c *Checker, rule string) {
+	w := c.w
+	wmp := mboxFunc(c, "(*mailbox.handshakeState).writeMsgPattern")
+	fPay := w.Field("mailbox.handshakeState.payloadToSend")
+	if wmp == nil || fPay == nil {
+		c.anchorFail("handshakeState.writeMsgPattern / payloadToSend")
+		return
+	}
+	n := 0
+	for _, ci := range findCalls(wmp, func(ci ssa.CallInstruction) bool { return calleeNameIsCI(ci, "EncryptAndHash") }) {
+		args := ci.Common().Args
+		arg := args[len(args)-1]
+		bad := ""
+		for _, v := range expandValues(arg) {
+			switch x := v.(type) {
+			case *ssa.Const:
+				if x.Value == nil {
+					continue
+				}
+			case *ssa.Slice:
+				if al, ok := x.X.(*ssa.Alloc); ok && al.Parent() == wmp {
+					continue // make([]byte, k) / a local array of this call
+				}
+			case *ssa.MakeSlice:
+				if x.Parent() == wmp {
+					continue
+				}
+			}
+			if isLoadOfField(v, fPay) {
+				continue
+			}
+			bad = w.canonFB(v)
+		}
+		n++
+		c.decide(bad == "", rule, fmt.Sprintf("writeMsgPattern|payload-%d is nothing, payloadToSend or a buffer of this call", n), instrPos(ci), "nil, h.payloadToSend, or a slice of an allocation made in this invocation",
+			"the act payload that writeMsgPattern encrypts comes from "+bad+": storage that outlives the call can still hold (part of) another handshake's auth payload")
+	}
+	c.decide(n >= 3, rule, "writeMsgPattern|payload sites", token.NoPos, fmt.Sprintf("%d EncryptAndHash calls", n), fmt.Sprintf("only %d EncryptAndHash calls in writeMsgPattern", n))
 }
